@@ -390,6 +390,18 @@ def _transition_on(chk, repo, ci, iface, fn, src):
             side = tg[:3] if tg[0] != "_" else tg[3:6]
             if args[:3] != side or args[3:] != [b["H"], b["U"], args[5], b["j"], args[7]]:
                 problems.append(f"tree is not extended from (and stored back to) its own end with (H, log u, v, j, eps): args {args}, targets {tg[:6]}")
+            # one fresh direction per doubling: every binding of the direction handed to the subtree lies in the doubling loop
+            dirv = a.value.args[5]
+            if isinstance(dirv, ast.Name):
+                inside = {id(n) for n in ast.walk(wl)}
+                defs = [n for n in ast.walk(fn) if isinstance(n, (ast.Assign, ast.AugAssign, ast.AnnAssign))
+                        and any(isinstance(t, ast.Name) and t.id == dirv.id for tt in (n.targets if isinstance(n, ast.Assign) else [n.target]) for t in ast.walk(tt))]
+                outside = [n for n in defs if id(n) not in inside]
+                if outside:
+                    problems.append(f"direction `{dirv.id}` is bound outside the doubling loop (`{unparse(outside[0])}`): the tree must be doubled in a freshly drawn direction at every depth, "
+                                    f"a single draw per transition grows the trajectory one-sidedly and breaks the uniform choice among doublings")
+                elif not defs:
+                    raise AnchorError(f"{inst}: no binding of the doubling direction `{dirv.id}`")
     if "n1" in b:
         acc = None
         for form in (["$p=min(1,$n1/$n)", "if: $s1==1", "if: np.random.rand()<=$p"], ["$p=min(1,$n1/$n)", "if: $s1==1", "if: np.random.rand()<$p"]):
@@ -471,7 +483,7 @@ def _transition_on(chk, repo, ci, iface, fn, src):
                     problems.append("n is increased before the acceptance probability is computed / the test is made")
             if iface == "exp" and f"self._current_alpha_ratio={b.get('al')}/{b.get('nal')}" not in {t for t, a in body}:
                 problems.append("tuning statistic is not alpha / n_alpha of the last doubling")
-    chk.add("C08-R4", inst, not problems, site(repo, src), "slice, doubling loop, accept guard, paired cache update, counters", "; ".join(problems), src)
+    chk.add("C08-R4", inst, not problems, site(repo, src), "slice, doubling loop, accept guard, paired cache update, counters", "; ".join(dict.fromkeys(problems)), src)
 
 
 # ------------------------------------------------------------------------------------------------ R5
